@@ -33,6 +33,9 @@ pub struct Ep {
     pub name: String,
     /// normalised parameter types (without `Env`)
     pub types: Vec<String>,
+    /// parameter names (same length as `types`; used only to choose among value pools)
+    #[serde(default)]
+    pub names: Vec<String>,
     /// not in the inventory taken at the pinned commit
     #[serde(default)]
     pub unlisted: bool,
@@ -126,7 +129,7 @@ fn toks_to_type(t: &[Tok]) -> String {
 }
 
 /// (derive name or None, function name, param types, is exported)
-fn scan_text(src: &str) -> Vec<(Option<String>, String, Vec<String>)> {
+fn scan_text(src: &str) -> Vec<(Option<String>, String, Vec<String>, Vec<String>)> {
     let toks = tokenize(&strip_comments(src));
     let mut out = vec![];
     let mut i = 0;
@@ -204,6 +207,7 @@ fn scan_text(src: &str) -> Vec<(Option<String>, String, Vec<String>)> {
                                 q += 1;
                             }
                             let mut types = vec![];
+                            let mut names = vec![];
                             for prm in params.iter().filter(|p| !p.is_empty()) {
                                 // name ':' type   (skip leading `mut`, `_name`)
                                 let colon = prm.iter().position(|t| *t == Tok::P(':'));
@@ -211,11 +215,15 @@ fn scan_text(src: &str) -> Vec<(Option<String>, String, Vec<String>)> {
                                     let ty = toks_to_type(&prm[c + 1..]);
                                     if ty != "Env" {
                                         types.push(ty);
+                                        names.push(match prm[..c].last() {
+                                            Some(Tok::Id(n)) => n.clone(),
+                                            _ => String::new(),
+                                        });
                                     }
                                 }
                             }
                             if (is_trait || is_pub) && !name.starts_with("__") {
-                                out.push((last_derive.clone(), name.clone(), types));
+                                out.push((last_derive.clone(), name.clone(), types, names));
                             }
                             m = q;
                         }
@@ -253,15 +261,15 @@ fn baseline() -> BTreeSet<String> {
 pub fn scan_repo() -> Vec<Ep> {
     let root = repo_root();
     let base = baseline();
-    let mut derive_eps: Vec<(String, String, Vec<String>)> = vec![];
+    let mut derive_eps: Vec<(String, String, Vec<String>, Vec<String>)> = vec![];
     let mut files = vec![];
     rs_files(&root.join("packages/axelar-soroban-std-derive/src"), &mut files);
     for f in &files {
         if let Ok(src) = std::fs::read_to_string(f) {
-            for (d, name, types) in scan_text(&src) {
+            for (d, name, types, names) in scan_text(&src) {
                 if let Some(d) = d {
                     let types = types.into_iter().map(|t| if t.starts_with('#') { "()".to_string() } else { t }).collect();
-                    derive_eps.push((d, name, types));
+                    derive_eps.push((d, name, types, names));
                 }
             }
         }
@@ -275,16 +283,16 @@ pub fn scan_repo() -> Vec<Ep> {
                 continue;
             }
             let Ok(src) = std::fs::read_to_string(f) else { continue };
-            for (_, name, types) in scan_text(&src) {
-                eps.insert(Ep { contract: c.to_string(), name, types, unlisted: false });
+            for (_, name, types, names) in scan_text(&src) {
+                eps.insert(Ep { contract: c.to_string(), name, types, names, unlisted: false });
             }
             // derive-generated entry points
             let stripped = strip_comments(&src);
             for line in stripped.lines().filter(|l| l.contains("derive(")) {
                 let words: Vec<Tok> = tokenize(line);
-                for (d, name, types) in &derive_eps {
+                for (d, name, types, names) in &derive_eps {
                     if words.contains(&Tok::Id(d.clone())) {
-                        eps.insert(Ep { contract: c.to_string(), name: name.clone(), types: types.clone(), unlisted: false });
+                        eps.insert(Ep { contract: c.to_string(), name: name.clone(), types: types.clone(), names: names.clone(), unlisted: false });
                     }
                 }
             }
@@ -316,7 +324,7 @@ fn split_generic(ty: &str) -> Option<(&str, &str)> {
 pub fn probeable(ty: &str) -> bool {
     match ty {
         "Address" | "String" | "Bytes" | "BytesN<32>" | "Token" | "i128" | "u128" | "u64" | "u32" | "i32" | "i64" | "bool" | "Symbol" | "Val" | "()"
-        | "TokenMetadata" => true,
+        | "TokenMetadata" | "Message" | "Proof" | "WeightedSigners" => true,
         _ => match split_generic(ty) {
             Some(("Option", t)) | Some(("Vec", t)) => probeable(t),
             _ => false,
@@ -352,7 +360,15 @@ pub struct SweepWorld<'a> {
     pub accounts: Vec<Address>,
     pub contracts: Vec<Address>,
     pub names: Vec<String>,
+    /// a second gas service whose collector is the operators contract
+    pub gas2: Address,
+    /// (chain, id, destination) of messages the gateway holds approved (source address "hub-address", zero payload hash)
+    pub approved: Vec<(&'static str, &'static str, Address)>,
+    /// id under which the gas asset is registered as canonical (the service holds `CUSTODY` of it)
+    pub canonical_id: [u8; 32],
 }
+
+pub const CUSTODY: i128 = 7_000;
 
 pub const TRUSTED: &str = "ethereum";
 
@@ -398,6 +414,41 @@ pub fn build_world<'a>(open_windows: u8, symbols: &[String]) -> SweepWorld<'a> {
     if open_windows & 8 != 0 {
         t2.upgrade(&h);
     }
+    // second gas service: the operators contract is its collector
+    let gas2_owner = Address::generate(&env);
+    let gas2 = env.register(axelar_gas_service::AxelarGasService, (&gas2_owner, &ops_id));
+    w.mint_asset(&w.gas_asset, &gas2, 30_000);
+    // allowances user_a -> user_b
+    env.mock_all_auths();
+    let far = env.ledger().sequence() + 100_000;
+    for t in [&w.gas_asset, &t1, &t2.address] {
+        TokenClient::new(&env, t).approve(&user_a, &user_b, &5_000, &far);
+    }
+    // the gas asset registered as canonical, some of it locked by an outbound transfer of user_a
+    env.mock_all_auths_allowing_non_root_auth();
+    let canonical_id = w.its.client.register_canonical_token(&w.gas_asset).to_array();
+    w.its
+        .client
+        .interchain_transfer(&user_a, &BytesN::from_array(&env, &canonical_id), &sstr(&env, TRUSTED), &Bytes::from_slice(&env, &[1u8; 20]), &CUSTODY, &None, &Token { address: w.gas_asset.clone(), amount: 1 });
+    // messages the gateway holds approved
+    let dests = [user_a.clone(), example.clone(), user_b.clone(), w.its.id.clone(), user_b.clone(), user_a.clone(), stranger.clone(), example.clone()];
+    let mut approved: Vec<(&'static str, &'static str, Address)> = vec![];
+    for (ci, c) in [TRUSTED, "avalanche", "stellar", "axelar"].into_iter().enumerate() {
+        for (ii, i) in ["msg-1", "msg-2"].into_iter().enumerate() {
+            approved.push((c, i, dests[ci * 2 + ii].clone()));
+        }
+    }
+    let msgs: Vec<axelar_gateway::types::Message> = approved
+        .iter()
+        .map(|(c, i, d)| axelar_gateway::types::Message {
+            source_chain: sstr(&env, c),
+            message_id: sstr(&env, i),
+            source_address: sstr(&env, "hub-address"),
+            contract_address: d.clone(),
+            payload_hash: BytesN::from_array(&env, &[0; 32]),
+        })
+        .collect();
+    w.gw.approve(&env, &w.set, &msgs).expect("approve");
     let accounts = vec![
         w.gw.owner.clone(),
         w.gw.operator.clone(),
@@ -412,12 +463,12 @@ pub fn build_world<'a>(open_windows: u8, symbols: &[String]) -> SweepWorld<'a> {
         user_b.clone(),
         stranger.clone(),
     ];
-    let contracts = vec![w.gw.id.clone(), w.gas.id.clone(), ops_id.clone(), w.its.id.clone(), t1.clone(), t2.address.clone(), w.gas_asset.clone(), upgrader.clone(), example.clone()];
+    let contracts = vec![w.gw.id.clone(), w.gas.id.clone(), ops_id.clone(), w.its.id.clone(), t1.clone(), t2.address.clone(), w.gas_asset.clone(), upgrader.clone(), example.clone(), gas2.clone()];
     let mut names: Vec<String> = symbols.to_vec();
     names.sort();
     names.dedup();
     env.set_auths(&[]);
-    SweepWorld { w, ops, ops_owner, ops_operator, upgrader, example, t1, t1_id, t2, t2_owner, minter, user_a, user_b, stranger, accounts, contracts, names }
+    SweepWorld { w, ops, ops_owner, ops_operator, upgrader, example, t1, t1_id, t2, t2_owner, minter, user_a, user_b, stranger, accounts, contracts, names, gas2, approved, canonical_id }
 }
 
 impl<'a> SweepWorld<'a> {
@@ -454,10 +505,61 @@ impl<'a> SweepWorld<'a> {
     fn amount(&self, seed: u64) -> i128 {
         [1i128, 0, 100, 10_000, 40_000, 50_000, -1, 1_000_000_000, i128::MAX][(seed % 9) as usize]
     }
+    /// like `value`, but lets the parameter name choose a narrower pool for strings
+    pub fn value_named(&self, ty: &str, name: &str, seed: u64) -> Val {
+        let env = self.env();
+        if ty == "Address" && seed % 8 < 5 {
+            let k = seed / 8;
+            let pool: Vec<&Address> = if name.contains("operator") {
+                vec![&self.ops_operator, &self.w.gw.operator, &self.ops_owner]
+            } else if name.contains("minter") {
+                vec![&self.minter, &self.user_a]
+            } else if name.contains("owner") {
+                vec![&self.w.gw.owner, &self.w.gas.owner, &self.ops_owner, &self.w.its.owner, &self.t2_owner]
+            } else if ["caller", "spender", "from", "sender", "deployer", "id"].contains(&name) {
+                vec![&self.user_a, &self.user_b, &self.example, &self.stranger]
+            } else if name.contains("token") {
+                vec![&self.w.gas_asset, &self.t1, &self.t2.address]
+            } else if name == "target" || name.contains("contract") {
+                vec![&self.gas2, &self.w.gas.id, &self.w.gw.id, &self.w.its.id, &self.t2.address, &self.ops.address]
+            } else {
+                return self.value(ty, seed);
+            };
+            return pool[(k % pool.len() as u64) as usize].clone().into_val(env);
+        }
+        if ty == "BytesN<32>" && name.contains("payload_hash") && seed % 4 != 3 {
+            return BytesN::from_array(env, &[0; 32]).into_val(env);
+        }
+        if ty == "String" && seed % 4 != 3 {
+            let pool: &[&str] = if name.contains("chain") {
+                &[TRUSTED, "avalanche", "stellar", "axelar"]
+            } else if name.contains("message_id") || name == "id" {
+                &["msg-1", "msg-2"]
+            } else if name.contains("address") {
+                &["hub-address", "0x4F4495243837681061C4743b74B3eEdf548D56A5"]
+            } else {
+                return self.value(ty, seed);
+            };
+            return sstr(env, pool[((seed / 4) % pool.len() as u64) as usize]).into_val(env);
+        }
+        self.value(ty, seed)
+    }
     pub fn value(&self, ty: &str, seed: u64) -> Val {
         let env = self.env();
         match ty {
             "Address" => self.address(seed).into_val(env),
+            "Message" => axelar_gateway::types::Message {
+                source_chain: sstr(env, [TRUSTED, "avalanche", "stellar", "fresh-chain"][(seed % 4) as usize]),
+                message_id: sstr(env, ["msg-1", "msg-2", "msg-3", "msg-4"][(seed / 4 % 4) as usize]),
+                source_address: sstr(env, "hub-address"),
+                contract_address: self.address(mix(seed, 3)),
+                payload_hash: BytesN::from_array(env, &[0; 32]),
+            }
+            .into_val(env),
+            // a set nobody installed (well-formed)
+            "WeightedSigners" => simple_set(50 + (seed % 3) as u16).to_soroban(env).into_val(env),
+            // signatures of the gateway's own signer set, over a digest that belongs to no command
+            "Proof" => self.w.set.proof(env, &seeded_bytes(seed, 32).try_into().unwrap(), self.w.set.full_mask()).into_val(env),
             "String" => {
                 let pool = [TRUSTED, "axelar", "stellar", "hub-address", "", "avalanche", "msg-1", "0x4F4495243837681061C4743b74B3eEdf548D56A5", "1.0.0", "0.0.0"];
                 sstr(env, pool[(seed % pool.len() as u64) as usize]).into_val(env)
@@ -467,17 +569,18 @@ impl<'a> SweepWorld<'a> {
                 Bytes::from_slice(env, &seeded_bytes(seed, lens[(seed % 4) as usize])).into_val(env)
             }
             "BytesN<32>" => {
-                let b: [u8; 32] = match seed % 8 {
+                let b: [u8; 32] = match seed % 9 {
                     0..=3 => empty_wasm_hash(),
                     4 => self.t1_id,
                     5 => [0; 32],
                     6 => self.t2.token_id().to_array(),
+                    7 => self.canonical_id,
                     _ => seeded_bytes(seed, 32).try_into().unwrap(),
                 };
                 BytesN::from_array(env, &b).into_val(env)
             }
             "Token" => {
-                let a = [&self.w.gas_asset, &self.t1, &self.t2.address, &self.stranger][(seed % 4) as usize].clone();
+                let a = [&self.w.gas_asset, &self.t1, &self.t2.address, &self.w.gas_asset, &self.stranger][(seed % 5) as usize].clone();
                 Token { address: a, amount: self.amount(mix(seed, 1)) }.into_val(env)
             }
             "TokenMetadata" => soroban_token_sdk::metadata::TokenMetadata { decimal: (seed % 19) as u32, name: sstr(env, "Gen"), symbol: sstr(env, "GEN") }.into_val(env),
@@ -547,6 +650,16 @@ pub enum Rule {
     Roles,
     /// C15: code replacement and migration need the owner
     Code,
+    /// C01 / C03: without a valid proof nothing is approved and no signer set is installed
+    Proofless,
+    /// C02: a message becomes executed only for the destination it names
+    Consume,
+    /// C07: an address loses tokens only with its own authorisation or through an allowance it granted
+    Spend,
+    /// C17: the operators contract uses its powers only for a current operator
+    Operators,
+    /// C05: the service releases custody / mints only for approved inbound messages (none exists in the sweep)
+    Value,
 }
 
 pub fn probeable_eps(eps: &[Ep]) -> Vec<Ep> {
@@ -561,6 +674,11 @@ impl Rule {
             Rule::GasOut => e.contract == "axelar-gas-service" || e.types.iter().any(|t| t == "Token"),
             Rule::Roles => ["transfer_", "add_", "remove_", "set_"].iter().any(|p| e.name.starts_with(p)),
             Rule::Code => e.name.contains("upgrade") || e.name.contains("migrate"),
+            Rule::Proofless => e.contract == "axelar-gateway",
+            Rule::Consume => e.name.contains("validate_message"),
+            Rule::Spend => e.contract == "interchain-token" || e.types.iter().any(|t| t == "Token" || t == "i128"),
+            Rule::Operators => e.contract == "axelar-operators" && e.name == "execute",
+            Rule::Value => e.contract == "interchain-token-service",
         }
     }
 }
@@ -609,6 +727,12 @@ struct Obs {
     minters: Vec<bool>,
     gas_bal: Vec<i128>,
     flags: Vec<bool>,
+    epoch: u64,
+    approved: Vec<bool>,
+    executed: Vec<bool>,
+    /// [token][holder] balances over accounts and contracts
+    bal: Vec<Vec<i128>>,
+    gas2_bal: i128,
 }
 
 pub fn run(case: &SweepCase, cx: &mut Cx, rule: Rule) -> Result<(), String> {
@@ -621,11 +745,38 @@ pub fn run(case: &SweepCase, cx: &mut Cx, rule: Rule) -> Result<(), String> {
         cx.label("sweep_entry_point_not_in_pinned_inventory");
     }
     let mut args: SVec<Val> = SVec::new(&env);
-    for (t, s) in case.ep.types.iter().zip(case.seeds.iter()) {
-        args.push_back(sw.value(t, *s));
+    for (i, (t, s)) in case.ep.types.iter().zip(case.seeds.iter()).enumerate() {
+        args.push_back(sw.value_named(t, case.ep.names.get(i).map(|x| x.as_str()).unwrap_or(""), *s));
     }
     if args.len() as usize != case.ep.types.len() {
         return Ok(());
+    }
+    // call forwarding (target: Address, func: Symbol, args: Vec<Val>): in half of the cases the three are chosen
+    // together, so that the forwarded call names a real entry point of the target with well-typed arguments
+    if let Some(i) = (0..case.ep.types.len().saturating_sub(2)).find(|i| case.ep.types[*i] == "Address" && case.ep.types[*i + 1] == "Symbol" && case.ep.types[*i + 2] == "Vec<Val>") {
+        let s0 = case.seeds[i + 1];
+        if s0 % 2 == 0 {
+            let mut all = probeable_eps(&scan_cached());
+            if s0 % 4 == 0 {
+                // half of the coordinated cases forward one of the gas service's payout calls
+                let hot: Vec<Ep> = all.iter().filter(|e| e.contract == "axelar-gas-service" && e.types.iter().any(|t| t == "Token") && !e.names.iter().any(|n| n == "spender" || n == "sender")).cloned().collect();
+                if !hot.is_empty() {
+                    all = hot;
+                }
+            }
+            let e = &all[((s0 / 4) % all.len() as u64) as usize];
+            let tgt = if e.contract == "axelar-gas-service" && s0 % 3 != 0 { Some(sw.gas2.clone()) } else { sw.target(&e.contract, s0 / 7) };
+            if let Some(tgt) = tgt {
+                let mut inner: SVec<Val> = SVec::new(&env);
+                for (k, t) in e.types.iter().enumerate() {
+                    inner.push_back(sw.value_named(t, e.names.get(k).map(|x| x.as_str()).unwrap_or(""), mix(case.seeds[i + 2], k as u64)));
+                }
+                args.set(i as u32, tgt.into_val(&env));
+                args.set(i as u32 + 1, Symbol::new(&env, &e.name).into_val(&env));
+                args.set(i as u32 + 2, inner.into_val(&env));
+                cx.label("sweep_forwarded_call_well_formed");
+            }
+        }
     }
     // contracts with an owner
     let owned: Vec<Address> = vec![sw.w.gw.id.clone(), sw.w.gas.id.clone(), sw.ops.address.clone(), sw.w.its.id.clone(), sw.t1.clone(), sw.t2.address.clone()];
@@ -652,9 +803,27 @@ pub fn run(case: &SweepCase, cx: &mut Cx, rule: Rule) -> Result<(), String> {
                 .collect(),
             gas_bal: tokens.iter().map(|t| TokenClient::new(&env, t).balance(&sw.w.gas.id)).collect(),
             flags: owned.iter().map(|c| migrating_flag(&env, c)).collect(),
+            epoch: sw.w.gw.client.epoch(),
+            approved: sw
+                .approved
+                .iter()
+                .map(|(c, i, d)| sw.w.gw.client.is_message_approved(&sstr(&env, c), &sstr(&env, i), &sstr(&env, "hub-address"), d, &BytesN::from_array(&env, &[0; 32])))
+                .collect(),
+            executed: sw.approved.iter().map(|(c, i, _)| sw.w.gw.client.is_message_executed(&sstr(&env, c), &sstr(&env, i))).collect(),
+            bal: tokens.iter().map(|t| sw.accounts.iter().chain(sw.contracts.iter()).map(|a| TokenClient::new(&env, t).balance(a)).collect()).collect(),
+            gas2_bal: TokenClient::new(&env, &sw.w.gas_asset).balance(&sw.gas2),
         }
     };
     let before = observe();
+    let allowance_before: Vec<Vec<Vec<i128>>> = if rule == Rule::Spend {
+        // [token][holder][spender among accounts]
+        tokens
+            .iter()
+            .map(|t| sw.accounts.iter().map(|h| sw.accounts.iter().map(|sp| TokenClient::new(&env, t).allowance(h, sp)).collect()).collect())
+            .collect()
+    } else {
+        vec![]
+    };
     let collector = sw.w.gas.client.gas_collector();
     let ev0 = events_len(&env);
     env.mock_all_auths_allowing_non_root_auth();
@@ -743,9 +912,89 @@ pub fn run(case: &SweepCase, cx: &mut Cx, rule: Rule) -> Result<(), String> {
                 }
             }
         }
+        _ => {}
+    }
+    match rule {
+        Rule::Proofless => {
+            let gw_ev = |name: &str| evs.iter().any(|e| e.0 == sw.w.gw.id && e.1.first() == Some(&sym(name)));
+            if after.epoch != before.epoch || gw_ev("signers_rotated") {
+                return Err(format!("{} installed a signer set although no valid proof for a rotation exists", what));
+            }
+            // fresh (chain, id) pairs the generators can name
+            let newly = ["msg-3", "msg-4"].iter().any(|i| {
+                [TRUSTED, "avalanche", "stellar", "fresh-chain"].iter().any(|c| {
+                    sw.accounts.iter().chain(sw.contracts.iter()).any(|d| sw.w.gw.client.is_message_approved(&sstr(&env, c), &sstr(&env, i), &sstr(&env, "hub-address"), d, &BytesN::from_array(&env, &[0; 32])))
+                })
+            });
+            if newly || gw_ev("message_approved") || before.approved.iter().zip(after.approved.iter()).any(|(b, a)| !*b && *a) {
+                return Err(format!("{} approved a message although no valid proof for an approval exists", what));
+            }
+        }
+        Rule::Consume => {
+            for (k, (b, a)) in before.executed.iter().zip(after.executed.iter()).enumerate() {
+                if !*b && *a {
+                    cx.count("sweep_message_consumed");
+                    if !authorised(&sw.approved[k].2) {
+                        return Err(format!("{} marked message {:?} executed without the destination it names having called or authorised", what, (sw.approved[k].0, sw.approved[k].1)));
+                    }
+                }
+            }
+        }
+        Rule::Spend => {
+            let na = sw.accounts.len();
+            for (ti, (bt, at)) in before.bal.iter().zip(after.bal.iter()).enumerate() {
+                for h in 0..na {
+                    if at[h] < bt[h] {
+                        cx.count("sweep_account_balance_decreased");
+                        let holder = &sw.accounts[h];
+                        let by_allowance = (0..na).any(|sp| allowance_before[ti][h][sp] > 0 && signers.contains(&sw.accounts[sp]));
+                        if !signers.contains(holder) && !by_allowance {
+                            return Err(format!("{} took {} of token #{} from an account that neither authorised it nor granted an allowance to a signer", what, bt[h] - at[h], ti));
+                        }
+                    }
+                }
+            }
+        }
+        Rule::Operators => {
+            if after.gas2_bal < before.gas2_bal {
+                cx.count("sweep_operators_power_used");
+                let by_operator = sw.accounts.iter().enumerate().any(|(i, a)| before.is_operator[i] && signers.contains(a));
+                if !by_operator {
+                    return Err(format!("{} made the operators contract pay out of the gas service it collects for, without a current operator's authorisation", what));
+                }
+            }
+        }
+        Rule::Value => {
+            let its_idx = sw.accounts.len() + 3;
+            if after.bal[0][its_idx] < before.bal[0][its_idx] {
+                return Err(format!("{} released {} of the locked canonical token although no inbound message was approved", what, before.bal[0][its_idx] - after.bal[0][its_idx]));
+            }
+            // supply of the service-deployed token: only the designated minter account could add to it here
+            let sum = |o: &Obs| -> i128 { o.bal[1].iter().fold(0i128, |a, b| a.saturating_add(*b)) };
+            if sum(&after) > sum(&before) {
+                cx.count("sweep_deployed_token_minted");
+                if !signers.contains(&sw.minter) {
+                    return Err(format!("{} increased the supply of the service-deployed token without its minter and without an approved inbound message", what));
+                }
+            }
+        }
+        _ => {}
     }
     let _ = ScVal::Void;
     Ok(())
+}
+
+fn scan_cached() -> Vec<Ep> {
+    thread_local! {
+        static EPS: std::cell::RefCell<Option<Vec<Ep>>> = const { std::cell::RefCell::new(None) };
+    }
+    EPS.with(|n| {
+        let mut n = n.borrow_mut();
+        if n.is_none() {
+            *n = Some(scan_repo());
+        }
+        n.clone().unwrap()
+    })
 }
 
 fn scan_names() -> Vec<String> {
